@@ -52,6 +52,7 @@ FirstVerifyFails(e) ==
   IF e.n > 0 /\ e.obs[2].res = "ok" /\ e.obs[k].op = "verify" /\ e.obs[k].res # "ok" THEN {"freshly-signed-message-does-not-verify"} ELSE {}
 Fails(e) ==
   CASE e.flow = "baddecode" -> IF e.obs[1].res = "ok" THEN {"decoded-message-with-no-or-empty-signature"} ELSE {}
+    [] e.flow = "panickey" /\ "crashed" \in DOMAIN e -> {"incomplete-process-aborted-by-a-panic-in-a-goroutine-the-library-started"}
     [] e.flow = "panickey" -> (IF e.obs[3].res = "ok" THEN {IF e.what = "sign" THEN "message-serialised-although-a-signer-panicked" ELSE "panicking-verifier-treated-as-success"} ELSE {})
                               \cup (IF e.what = "sign" /\ e.obs[2].res = "ok" THEN {"panicking-signer-treated-as-success"} ELSE {})
     [] e.flow = "nilslot" -> IF e.obs[3].res = "ok" THEN {"message-with-a-nil-signature-slot-" \o e.what} ELSE {}
